@@ -265,11 +265,17 @@ def run_case(inp):
                 return (float(model.score(subs[i], quats[i], np.zeros(3, dtype=np.float32))),)
             lds = np.asarray(model.landscape(subs[i], (1.0, 1.0, 1.0), quats[i], np.zeros(3, dtype=np.float32)))
             return (float(lds.sum()), float(lds.max()))
+        # several candidates per sub-volume (rotation search and / or several templates): the per-candidate
+        # loops of the model run interleaved as well
+        mkw = dict(tilt=(-60, 60), cutoff=0.5)
+        if inp.get("candidates") in ("rotations", "both"):
+            mkw["rotations"] = [Rotation.identity(), Rotation.from_euler("z", 40, degrees=True), Rotation.from_euler("y", -40, degrees=True)]
+        tin = [tmpl, r.normal(size=(6, 6, 6)).astype(np.float32)] if inp.get("candidates") in ("templates", "both") else tmpl
         for trial in range(int(inp["trials"])):
             alone = []
             for i in range(nthreads):
-                alone.append(task(cls(tmpl, tilt=(-60, 60), cutoff=0.5), i))
-            model = cls(tmpl, tilt=(-60, 60), cutoff=0.5)
+                alone.append(task(cls(tin, **mkw), i))
+            model = cls(tin, **mkw)
             sr = np.random.default_rng(inp["seed"] * 1000 + trial)
             # bursts of varying length so that both fine and coarse interleavings occur
             schedule = []
@@ -407,6 +413,10 @@ def oracle(rng, thorough, deep=False, hints=None):
         cases.append(dict(kind="model-interleave", seed=int(rng.integers(0, 10 ** 6)), threads=[2, 3][i % 2],
                           model=["ZNCC", "PCC"][i % 2], method=["align", "score", "landscape"][i % 3],
                           trials=40 if deep else 4, steps=3000))
+    for i in range(6 if deep else (3 if thorough else 2)):
+        cases.append(dict(kind="model-interleave", seed=int(rng.integers(0, 10 ** 6)), threads=[2, 3][i % 2],
+                          model=["ZNCC", "PCC"][(i // 2) % 2], method=["align", "landscape"][i % 2],
+                          candidates=["rotations", "both", "templates"][i % 3], trials=30 if deep else 3, steps=6000))
     cases.append(dict(kind="backend-context", seed=int(rng.integers(0, 10 ** 6))))
     cases.append(dict(kind="wedge-race", seed=int(rng.integers(0, 10 ** 6)), nmol=64 if big else 32,
                       workers=[8, 16] if big else [8], reps=6 if deep else (2 if thorough else 1)))
